@@ -5,7 +5,7 @@ set -e
 cd "$(dirname "$0")"
 export CARGO_NET_OFFLINE=true
 mkdir -p .cache evidence out
-python3 tools/gen_enums.py /repo coq/theories/Gen/Enums.v || true
+python3 tools/gen_enums.py "${VERIF_REPO:-/repo}" coq/theories/Gen/Enums.v || true
 ( cd coq && coq_makefile -f _CoqProject -o Makefile >/dev/null && timeout 7200 make -j16 >/dev/null )
 python3 - <<'PY'
 import sys, os
